@@ -182,6 +182,7 @@ void OpCtx::reset_op(const std::vector<EnvAns> *e, uint64_t uid) {
   fault_addr = 0;
   exit_status = 0;
   mremap_moves = mremap_calls = 0;
+  soft_faults = 0;
   sim_error.clear();
 }
 
@@ -406,6 +407,17 @@ static ssize_t ck_out_write(void *cookie, const char *buf, size_t n) {
   int kind = os->file < 0 ? K_OUT : K_CWRITE;
   const EnvAns *a = in_lib() ? answer(kind) : nullptr;
   size_t take = n;
+  if (a && a->ans == ANS_SHORT && a->err == EINTR && n > 1) {
+    // transient partial write(2): stdio has to write the rest itself
+    cur_ctx()->soft_faults++;
+    G.st.transient_short_writes++;
+    take = std::min<size_t>(n - 1, (size_t)std::max(1L, a->arg));
+    if (os->file < 0)
+      G.out_cap.append(buf, take);
+    else
+      G.files[os->file].data.append(buf, take);
+    return (ssize_t)take;
+  }
   if (a && (a->ans == ANS_FAIL || a->ans == ANS_SHORT)) {
     note_fired(kind);
     take = a->ans == ANS_FAIL ? 0 : std::min<size_t>(n ? n - 1 : 0, (size_t)std::max(0L, a->arg));  // strictly short
@@ -1096,6 +1108,15 @@ extern "C" size_t __wrap_fwrite(const void *ptr, size_t size, size_t n, FILE *f)
   if (!in_lib() || G.ostreams.find(f) == G.ostreams.end()) return __real_fwrite(ptr, size, n, f);  // diagnostics on stderr etc.
   HarnessScope hs_;
   const EnvAns *a = answer(K_FWRITE);
+  if (a && a->ans == ANS_SHORT && a->err == EINTR && size * n > 1) {
+    // a transient short count (interrupted write): legal, later writes work again.  Not a refusal: the
+    // caller may give up or retry, but must not claim success for an incomplete file.
+    OpCtx *c = cur_ctx();
+    c->soft_faults++;
+    G.st.transient_short_writes++;
+    size_t take = std::min<size_t>(n - 1, (size_t)std::max(1L, a->arg));
+    return __real_fwrite(ptr, size, take, f);
+  }
   if (a && (a->ans == ANS_FAIL || a->ans == ANS_SHORT) && size * n > 0) {  // nothing to refuse in an empty write
     note_fired(K_FWRITE);
     size_t take = a->ans == ANS_FAIL ? 0 : std::min<size_t>(n ? n - 1 : 0, (size_t)std::max(0L, a->arg));
